@@ -190,17 +190,20 @@ static void _meta_fini(void) {
 	}
 }
 static void _meta_init(void) {
+	struct named_traits_chunk *chunk;
 	MPT_STRUCT(named_traits) *base;
 	
-	if (!(meta_types = malloc(sizeof(*meta_types)))) {
+	if (!(chunk = malloc(sizeof(*chunk)))) {
 		return;
 	}
-	meta_types->used = 0;
+	/* no registry without generic metatype entry */
+	if (!(base = malloc(sizeof(*base) + sizeof(pointer_traits)))) {
+		free(chunk);
+		return;
+	}
+	meta_types = chunk;
 	atexit(_meta_fini);
 	
-	if (!(base = malloc(sizeof(*base) + sizeof(pointer_traits)))) {
-		return;
-	}
 	*((const void **) &base->traits) = memcpy(base + 1, &pointer_traits, sizeof(pointer_traits));
 	*((const char **) &base->name) = "metatype";
 	*((MPT_TYPE(type) *) &base->type) = MPT_ENUM(_TypeMetaPtrBase);
@@ -457,7 +460,11 @@ extern const MPT_STRUCT(named_traits) *mpt_named_traits(const char *name, int le
 	if (len >= 0) {
 		if (!(ext = meta_types)) {
 			_meta_init();
-			ext = meta_types;
+			/* metatype names take precedence: no answer without them */
+			if (!(ext = meta_types)) {
+				errno = ENOMEM;
+				return 0;
+			}
 		}
 		while (ext) {
 			for (i = 0; i < ext->used; i++) {
@@ -505,7 +512,11 @@ extern const MPT_STRUCT(named_traits) *mpt_named_traits(const char *name, int le
 	}
 	if (!(ext = meta_types)) {
 		_meta_init();
-		ext = meta_types;
+		/* metatype names take precedence: no answer without them */
+		if (!(ext = meta_types)) {
+			errno = ENOMEM;
+			return 0;
+		}
 	}
 	while (ext) {
 		for (i = 0; i < ext->used; i++) {
@@ -631,7 +642,11 @@ extern const MPT_STRUCT(named_traits) *mpt_type_metatype_add(const char *name)
 	
 	if (!(ext = meta_types)) {
 		_meta_init();
-		ext = meta_types;
+		/* table could not be created */
+		if (!(ext = meta_types)) {
+			errno = ENOMEM;
+			return 0;
+		}
 	}
 	
 	if (name) {
